@@ -646,8 +646,9 @@ Definition connect (st : state) (priv : bool) : state * list item :=
 (* bus_connection_disconnected *)
 Definition disconnect (st : state) (c : cid) : state * list item :=
   if is_monitor st c then
-    (upd st (filter (fun x => negb (x =? c)) (st_conns st)) (st_next st) (st_own st) (st_rules st)
-             (mm_disconnected (st_mrules st) c) (filter (fun x => negb (x =? c)) (st_mons st)) (st_pend st), [])
+    (* no names to release; the pending replies are dropped as for everybody (a monitor normally has none) *)
+    noreply_items (upd st (filter (fun x => negb (x =? c)) (st_conns st)) (st_next st) (st_own st) (st_rules st)
+                          (mm_disconnected (st_mrules st) c) (filter (fun x => negb (x =? c)) (st_mons st)) (st_pend st)) c
   else
     let st1 := upd st (filter (fun x => negb (x =? c)) (st_conns st)) (st_next st) (st_own st)
                        (drop_rules (st_rules st) c) (st_mrules st) (st_mons st) (st_pend st) in
